@@ -8,6 +8,7 @@
 //vp:bounds thorough adds: C = 2 arbitrary samples; D = 3 samples, first t in [0,64), first delta in [1,64), v1 arbitrary (third sample meets the reuse-window class); E = 3 samples, first t in [0,64), first delta arbitrary, v1==v0
 //vp:bounds XOR2 quick: profiles A and B with all start timestamps 0, plus S2 = 2 samples with pinned t/v and arbitrary start timestamps; thorough adds C, D, E (st=0), A and B with arbitrary start timestamps, and S3 = 3 samples with pinned t/v and arbitrary start timestamps
 //vp:bounds resume: 2 samples (first t in [0,64), delta in [1,64), st=0), reload with FromData, third sample arbitrary; second value = first (quick), or first=1.0 and second=staleness marker (quick), or both arbitrary (thorough)
+//vp:bounds seek: 3 samples with pinned timestamps/values, the iterator advanced 0..2 times, then Seek(x) for every x, then Next
 //vp:assume timestamps strictly increasing and within +-2^62 (the range the property states)
 package chunkenc
 
@@ -204,3 +205,65 @@ func vpXResume(enc Encoding, withST bool) {
 
 func vpH_C10_xor_resume()  { vpXResume(EncXOR, false) }
 func vpH_C10_xor2_resume() { vpXResume(EncXOR2, true) }
+
+// Seek returns the first sample at or after the requested time (and the following Next continues from there).
+func vpXSeek(c Chunk, withST bool) {
+	st, ts, vs := make([]int64, 3), make([]int64, 3), make([]float64, 3)
+	for i := 0; i < 3; i++ {
+		st[i], ts[i], vs[i] = 0, vpInt64(), vpFloat64()
+		if i > 0 {
+			vpAssume(vpAnd(ts[i]-ts[i-1] >= 1, ts[i]-ts[i-1] < 64))
+			vpAssume(math.Float64bits(vs[i]) == math.Float64bits(vs[0]))
+		}
+	}
+	vpAssume(vpAnd(ts[0] >= 0, ts[0] < 64))
+	app, err := c.Appender()
+	if err != nil {
+		panic(err)
+	}
+	for i := 0; i < 3; i++ {
+		app.Append(st[i], ts[i], vs[i])
+	}
+	it := c.Iterator(nil)
+	pre := vpShape("nextsBefore", 0, 2) // position of the iterator before Seek
+	for i := 0; i < pre; i++ {
+		it.Next()
+	}
+	x := vpInt64()
+	r := it.Seek(x)
+	// expected index: stays at the current sample if it qualifies, else the first later sample with t >= x
+	want := 3
+	for i := 2; i >= 0; i-- {
+		if i >= pre-1 && i >= 0 {
+			if vpAnd(ts[i] >= x, true) {
+				want = i
+			}
+		}
+	}
+	if pre > 0 && ts[pre-1] >= x {
+		want = pre - 1
+	}
+	vpObserve("r", uint8(r))
+	if want == 3 {
+		vpAssert(r == ValNone, "ValNone when no sample is at or after the target")
+		vpReach("none")
+		return
+	}
+	vpAssert(r == ValFloat, "a sample is found")
+	if r != ValFloat {
+		return
+	}
+	t, v := it.At()
+	vpObserve("t", t)
+	vpAssert(t == ts[want], "Seek returns the first sample at or after the requested time")
+	vpAssert(math.Float64bits(v) == math.Float64bits(vs[want]), "value at the sought sample")
+	if want < 2 {
+		vpAssert(it.Next() == ValFloat && it.AtT() == ts[want+1], "Next continues after the sought sample")
+	} else {
+		vpAssert(it.Next() == ValNone, "end after the last sample")
+	}
+	vpReach("found")
+}
+
+func vpH_C10_xor_seek()  { vpXSeek(NewXORChunk(), false) }
+func vpH_C10_xor2_seek() { vpXSeek(NewXOR2Chunk(), true) }
